@@ -221,7 +221,12 @@ def check_race(history, cfg):
 					if lab in msg:
 						who = labels[lab]
 						break
-				nums = {int(x) for x in re.findall(r"(?<!\d)\d+(?!\d)", msg)}
+				fns = re.findall(r"fn=(\d+)", msg)
+				if fns:
+					nums = {int(x) for x in fns}
+				else:
+					from engines.um_model import _ADDR_RE
+					nums = {int(x) for x in re.findall(r"(?<![\d.:])\d+(?![\d.])", _ADDR_RE.sub(" ", msg))}
 				tnm = re.search(r"\btn=(\d+)", msg)
 				stales.append((cur_tick, who, nums, int(tnm.group(1)) if tnm else None, idx))
 		elif kind == "thread-death":
